@@ -13,4 +13,5 @@ while [ $# -gt 0 ]; do
     *) args+=("$1"); shift;;
   esac
 done
-exec "$ROOT/.bin/c14" "${args[@]}"
+BIN="$ROOT/.bin/c14"; [ -n "${VERIF_REPO:-}" ] && BIN="$ROOT/.bin/alt/c14"
+exec "$BIN" "${args[@]}"
